@@ -69,6 +69,11 @@ class Checker:
             self.deferred.append(e)
             self.say("DEFER  undecided in %s: %s" % (getattr(fn, "__name__", "?"), e))
             return None
+        except Exception as e:     # analyser failure inside one group: undecided for that group, never a verdict
+            u = Undecided("analyser failure in %s: %s: %s" % (getattr(fn, "__name__", "?"), type(e).__name__, str(e)[:200]))
+            self.deferred.append(u)
+            self.say("DEFER  %s" % u)
+            return None
 
     def raise_deferred(self):
         if self.deferred and not self.violations:
